@@ -6,7 +6,7 @@ import panic as PN
 import facts as FX
 from facts import tokens, fmt, short, walk, strip_sites
 
-CRATES = ["scion_stack"]
+CRATES = ["scion_stack", "sciparse"]
 EXPLANATION = (
     "Static rules over the MIR of scion-stack's issue handling.  Decided: (GS-penalty-match) every reliability penalty "
     "(ReliabilityScore::update) applied while ingesting an issue or replaying cached issues is applied to a path entry only "
@@ -18,7 +18,9 @@ EXPLANATION = (
     "invocation that learnt of the failure, which is what 'the very next send' relies on.  (GS-applies) issues for another "
     "src/dst pair are dropped before any state is touched.  (FLOW-decay) the score read by ranking decays with the time "
     "since the last update (the `now` argument and `last_updated` both reach exponential_decay with a constant positive "
-    "half-life), which is what makes a penalised path eligible again.  NOT decided (value clauses): the size of penalties, "
+    "half-life), which is what makes a penalised path eligible again.  (FLOW-target) interface-down / connectivity-down / "
+    "first-hop reports become markers built from that report's own AS and interface fields (egress vs ingress not swapped).  "
+    "(PEN-link) link-failure SCMP errors carry a strictly negative penalty constant.  NOT decided (value clauses): the size of penalties, "
     "the swap threshold, that the re-ranking actually prefers a path avoiding the interface, freshness windows.")
 RESIDUAL = [
     "whether the re-evaluation picks a path that avoids the failed interface (scores, thresholds: values)",
@@ -181,3 +183,114 @@ def run(F, R, tier, cfg):
     affected_flag_rule(F, R)
     reeval_rule(F, R)
     decay_rule(F, R)
+    target_flow_rule(F, R)
+    penalty_sign_rule(F, R)
+
+
+TARGET = "scion_stack::path::manager::issues::IssueKind::target_type"
+PENALTY = "scion_stack::path::manager::issues::IssueKind::penalty"
+SEM = "sciparse::proto::payload::scmp::model::ScmpErrorMessage"
+
+
+def target_flow_rule(F, R):
+    """FLOW-target: the failure report is turned into the marker that is later matched against paths.  Interface-down /
+    connectivity-down / first-hop failures must name the AS and the interface(s) of *that* report: Interface{isd_asn <-
+    msg.isd_asn, egress_filter <- msg.interface_id | msg.egress_interface_id, ingress_filter <- None | Some(msg.
+    ingress_interface_id)}, FirstHop{isd_asn <- err.isd_asn, egress_interface <- err.interface_id}.  Swapped or dropped
+    fields make the report match the wrong paths (or none), which the GS rules above cannot see."""
+    b = F.body(TARGET)
+    if b is None:
+        R.anchor_missing(TARGET)
+        return
+    R.fn(TARGET)
+    n = 0
+    for bb in sorted(b.live_blocks()):
+        for st in b.stmts(bb):
+            if not (st[0] == "=" and st[2][0] == "agg" and st[2][1][0] == "adt" and st[2][1][1].endswith("issues::IssueMarkerTarget")):
+                continue
+            var = st[2][1][2]
+            if var not in ("Interface", "FirstHop"):
+                continue
+            n += 1
+            names = st[2][1][4] if len(st[2][1]) > 4 else []
+            ops = {k: strip_sites(b.origin(o)) for k, o in zip(names, st[2][2])}
+            tk = {k: tokens(v) for k, v in ops.items()}
+            src_variants = {x[2] for v in ops.values() for x in walk(v) if x[0] == "downcast" and x[2] in ("ExternalInterfaceDown", "InternalConnectivityDown", "FirstHopUnreachable")}
+            ok = len(src_variants) == 1 and "field:isd_asn" in tk.get("isd_asn", ())
+            if var == "Interface":
+                eg = tk.get("egress_filter", set())
+                ing = ops.get("ingress_filter", ("top",))
+                ok = ok and (("field:interface_id" in eg) or ("field:egress_interface_id" in eg)) and "field:ingress_interface_id" not in eg
+                if "InternalConnectivityDown" in src_variants:
+                    ok = ok and ing[0] == "agg" and ing[1][2] == "Some" and "field:ingress_interface_id" in tokens(ing)
+                else:
+                    ok = ok and ing[0] == "agg" and ing[1][2] == "None"
+            else:
+                ok = ok and "field:interface_id" in tk.get("egress_interface", ())
+            R.ob("FLOW-target", "%s marker built from the fields of the %s report" % (var, sorted(src_variants)), ok, True,
+                 {"rule": "FLOW-target", "variant": var, "source": sorted(src_variants), "fields": {k: fmt(v, 80) for k, v in ops.items()}, "holds": ok})
+            if not ok:
+                R.violation("FLOW-target", "%s/%s/%s" % (TARGET, var, "+".join(sorted(src_variants))), "the %s marker is not built from the AS / interface fields of the report it "
+                            "stands for (%s): the failure is attributed to the wrong interface and the paths using the broken one keep their score"
+                            % (var, {k: fmt(v, 60) for k, v in ops.items()}), b.span_of(st[3]).loc)
+    R.floor("FLOW-target", n, 3, "Interface (2) and FirstHop (1) markers in IssueKind::target_type")
+
+
+def _f32(bits):
+    import struct
+    return struct.unpack("<f", struct.pack("<I", bits & 0xffffffff))[0]
+
+
+def penalty_sign_rule(F, R):
+    """PEN-link: a link-failure report carries a strictly negative penalty (interface down, connectivity down, first hop
+    unreachable); with a zero penalty the report is ingested and nothing is steered away."""
+    b = F.body(PENALTY)
+    adt = F.adts.get(SEM)
+    if b is None or adt is None:
+        R.anchor_missing(PENALTY if b is None else SEM)
+        return
+    R.fn(PENALTY)
+    disc = {v[0]: v[1] for v in adt["variants"]}
+    # the switch over the SCMP error kind
+    found = {}
+    for g in sorted(b.live_blocks()):
+        t = b.term(g)
+        if t[0] != "switch":
+            continue
+        o = b.origin(t[1])
+        if o[0] != "disc":
+            continue
+        x = PN._peel_refs(strip_sites(o[1]))
+        if not (x[0] == "field" and x[2] == "error"):
+            continue
+        arms = {v: tg for v, tg in t[2]}
+        for name in ("ExternalInterfaceDown", "InternalConnectivityDown"):
+            tg = arms.get(disc.get(name), t[3])
+            cur = tg
+            val = None
+            for _ in range(6):
+                for st in b.stmts(cur):
+                    if st[0] == "=" and st[2][0] == "use":
+                        k = FX.op_const(st[2][1])
+                        if k and k.get("ty") == "f32" and isinstance(k.get("v"), int):
+                            val = _f32(k["v"])
+                if val is not None:
+                    break
+                tt = b.term(cur)
+                if tt[0] in ("goto", "falseedge", "falseunwind"):
+                    cur = tt[1]
+                else:
+                    break
+            found[name] = val
+    # first hop
+    fh = None
+    for bb in sorted(b.live_blocks()):
+        pass
+    lits = sorted({_f32(x[1]) for x in walk(b.origin([c for c in b.calls if c.decl.endswith("new_clamped")][0].args[0])) if x[0] == "lit" and x[2] == "f32"}) \
+        if [c for c in b.calls if c.decl.endswith("new_clamped")] else []
+    ok = all(found.get(nm) is not None and found[nm] < 0 for nm in ("ExternalInterfaceDown", "InternalConnectivityDown"))
+    R.ob("PEN-link", "penalty(ExternalInterfaceDown)=%s, penalty(InternalConnectivityDown)=%s (all penalty constants: %s)" % (found.get("ExternalInterfaceDown"), found.get("InternalConnectivityDown"), lits),
+         ok, True, {"rule": "PEN-link", "values": found, "all_constants": lits, "holds": ok})
+    if not ok:
+        R.violation("PEN-link", PENALTY, "a link-failure SCMP error does not carry a strictly negative penalty (%s): the report is ingested and ranked, and nothing "
+                    "is steered away from the broken interface" % found, F.loc(PENALTY))
